@@ -4,7 +4,11 @@ package main
 // the canonical result syntax and the body generator live in c16.go).
 
 import (
+	"bytes"
 	"hash/fnv"
+	"os"
+	"path/filepath"
+	"regexp"
 	"sort"
 	"strings"
 	"time"
@@ -17,6 +21,9 @@ func init() {
 }
 
 func evalC15(op string, args []string) string {
+	if op == "walkfs" {
+		return evalC15FS(args)
+	}
 	if op != "walk" {
 		return "UNKNOWN-OP"
 	}
@@ -80,6 +87,131 @@ func evalC15(op string, args []string) string {
 		return "err Other - 0 - " + o.trace()
 	}
 	return "ok " + dpShowDict(d) + " " + o.trace()
+}
+
+// ---- walkfs: the same walk through the REAL file system and dictionary.FileSystemOpener ----
+//
+// The files are written into a fresh directory; every `$INCLUDE name` argument in the texts is re-spelled in
+// one of several equivalent ways (plain, ./name, <dir>/name, <dir>//name, <dir>/./name, sub/../name) — all
+// denote the same file, so the outcome must be the one of the plain spelling (which is what the model is run
+// on).  File names in the result (ParseError.File, RecursiveIncludeError.Filename, the open/close trace) are
+// mapped back to the plain names.
+type fsOpener struct {
+	inner  *dictionary.FileSystemOpener
+	dir    string
+	events []string
+}
+
+func (o *fsOpener) plain(name string) string {
+	c := filepath.Clean(name)
+	if r, err := filepath.Rel(o.dir, c); err == nil && !strings.HasPrefix(r, "..") {
+		return r
+	}
+	return c
+}
+
+type fsFile struct {
+	dictionary.File
+	op *fsOpener
+}
+
+func (f *fsFile) Close() error {
+	f.op.events = append(f.op.events, "c"+hx([]byte(f.op.plain(f.File.Name()))))
+	return f.File.Close()
+}
+
+func (o *fsOpener) OpenFile(name string) (dictionary.File, error) {
+	f, err := o.inner.OpenFile(name)
+	if err != nil {
+		// (only names made of plain characters are ever re-spelled; any other name is reported as written)
+		if filepath.IsAbs(name) || strings.HasPrefix(name, "./") || strings.HasPrefix(name, "sub/../") {
+			if !filepath.IsAbs(name) {
+				name = filepath.Join(o.dir, name)
+			}
+			return nil, &memOpenError{o.plain(name)}
+		}
+		return nil, &memOpenError{name}
+	}
+	o.events = append(o.events, "o"+hx([]byte(o.plain(f.Name()))))
+	return &fsFile{f, o}, nil
+}
+
+var simpleName = regexp.MustCompile(`^[A-Za-z0-9_][A-Za-z0-9_.-]*$`)
+
+func evalC15FS(args []string) string {
+	if len(args) != 3 || args[2] != "0" && args[2] != "1" || args[0] == "" || args[0] == "-" {
+		return "BAD-CASE"
+	}
+	dir, err := os.MkdirTemp("", "vh-c15-")
+	if err != nil {
+		return "HARNESS-tmpdir"
+	}
+	defer os.RemoveAll(dir)
+	if d2, err := filepath.EvalSymlinks(dir); err == nil {
+		dir = d2
+	}
+	os.Mkdir(filepath.Join(dir, "sub"), 0o755)
+	k := 0
+	respell := func(line []byte) []byte {
+		f := strings.Fields(string(line))
+		if len(f) != 2 || f[0] != "$INCLUDE" || !simpleName.MatchString(f[1]) {
+			return line
+		}
+		k++
+		alt := []string{f[1], "./" + f[1], dir + "/" + f[1], dir + "//" + f[1], dir + "/./" + f[1], "sub/../" + f[1], dir + "/sub/../" + f[1]}[(k+len(f[1]))%7]
+		// keep everything around the argument (leading blanks, trailing comment …) as it was
+		i := bytes.LastIndex(line, []byte(f[1])) // the argument is the last field of the line
+		return append(append(append([]byte{}, line[:i]...), alt...), line[i+len(f[1]):]...)
+	}
+	for _, e := range strings.Split(args[0], ",") {
+		f := strings.Split(e, ":")
+		if len(f) != 2 {
+			return "BAD-CASE"
+		}
+		name := string(unhx(f[0]))
+		if !simpleName.MatchString(name) || name == "sub" {
+			return "BAD-CASE"
+		}
+		var out [][]byte
+		for _, line := range bytes.Split(unhx(f[1]), []byte("\n")) {
+			out = append(out, respell(line))
+		}
+		if _, err := os.Stat(filepath.Join(dir, name)); err == nil {
+			continue // the first registration of a name wins (as in the in-memory opener)
+		}
+		if os.WriteFile(filepath.Join(dir, name), bytes.Join(out, []byte("\n")), 0o644) != nil {
+			return "HARNESS-write"
+		}
+	}
+	root := string(unhx(args[1]))
+	if !simpleName.MatchString(root) {
+		return "BAD-CASE"
+	}
+	o := &fsOpener{inner: &dictionary.FileSystemOpener{Root: dir}, dir: dir}
+	p := dictionary.Parser{Opener: o, IgnoreIdenticalAttributes: args[2] == "1"}
+	d, err := p.ParseFile(root)
+	trace := "-"
+	if len(o.events) > 0 {
+		trace = strings.Join(o.events, ",")
+	}
+	if err != nil {
+		f := dpClassify(err)
+		file, detail := "-", "-"
+		if f.hasFile {
+			file = hx([]byte(o.plain(f.file)))
+		}
+		if f.hasDetail {
+			detail = hx([]byte(f.detail))
+			if filepath.IsAbs(f.detail) {
+				detail = hx([]byte(o.plain(f.detail)))
+			}
+		}
+		return "err " + f.class + " " + file + " " + itoa(f.line) + " " + detail + " " + trace
+	}
+	if d == nil {
+		return "err Other - 0 - " + trace
+	}
+	return "ok " + dpShowDict(d) + " " + trace
 }
 
 // ---------------------------------------------------------------------------------------------
@@ -295,7 +427,20 @@ func dpLinesText(lines ...string) []byte { return []byte(strings.Join(lines, "\n
 
 func genC15(g *Gen, tier string, emit func(op string, args ...string)) {
 	thorough := tier == "thorough"
-	walk := func(fs *dpFS, root, ign string) { emit("walk", fs.arg(), hx([]byte(root)), ign) }
+	nwalk := 0
+	walk := func(fs *dpFS, root, ign string) {
+		emit("walk", fs.arg(), hx([]byte(root)), ign)
+		// every fourth file system also goes through the real file system and FileSystemOpener
+		if nwalk++; nwalk%4 == 0 {
+			ok := simpleName.MatchString(root)
+			for _, n := range fs.names {
+				ok = ok && simpleName.MatchString(n) && n != "sub"
+			}
+			if ok && len(fs.names) > 0 {
+				emit("walkfs", fs.arg(), hx([]byte(root)), ign)
+			}
+		}
+	}
 
 	// (b) hand-written graphs
 	{
